@@ -909,9 +909,28 @@ macro_rules! attr_cross {
     } )* };
 }
 
+/// A `format = ..` formatter that hands the value it is given to the writer unchanged: a unit
+/// declared next to it has to be honoured all the same (round 14, `C19l`).
+struct AsIs;
+
+impl<T: metrique_writer_core::Value> metrique_writer_core::value::ValueFormatter<T, metrique_writer_core::value::NotLifted> for AsIs {
+    fn format_value(writer: impl ValueWriter, value: &T) {
+        value.write(writer)
+    }
+}
+
 // concrete (non generic) structs, written the way users write them, through `metrique::unit`
 #[metrics]
 struct AttrConcrete {
+    // a unit together with a value formatter
+    #[metrics(unit = mu::Second, format = AsIs)]
+    dur_s_fmt: Duration,
+    #[metrics(format = AsIs, unit = mu::Megabyte)]
+    size_fmt: u64,
+    #[metrics(unit = mu::Kilobyte, format = AsIs)]
+    tbit_as_kb_fmt: Tagged<mu::Terabit>,
+    #[metrics(format = AsIs)]
+    dur_default_fmt: Duration,
     #[metrics(unit = mu::Kilobyte)]
     tbit_as_kb: Tagged<mu::Terabit>,
     #[metrics(unit = mu::Second)]
@@ -955,6 +974,10 @@ fn attr_concrete(st: &mut St) {
             _ => 17,
         };
         let m = AttrConcrete {
+            dur_s_fmt: d,
+            size_fmt: n,
+            tbit_as_kb_fmt: Tagged::new(x),
+            dur_default_fmt: d,
             tbit_as_kb: Tagged::new(x),
             us_as_s: Tagged::new(x),
             kbyteps_as_mbitps: Tagged::new(x),
@@ -991,6 +1014,10 @@ fn attr_concrete(st: &mut St) {
         check_duration(st, "attribute-duration", "duration", &[d], &info("Millisecond"), false, &get("dur_ms"), 4.0);
         check_duration(st, "attribute-duration", "duration", &[d], &info("Microsecond"), false, &get("dur_us"), 4.0);
         check_duration(st, "attribute-duration-no-close", "duration", &[d], &info("Second"), false, &get("dur_s_no_close"), 4.0);
+        check_duration(st, "attribute-duration-with-format", "duration", &[d], &info("Second"), false, &get("dur_s_fmt"), 4.0);
+        check_duration(st, "attribute-duration-default-with-format", "duration-default", &[d], &info("Millisecond"), false, &get("dur_default_fmt"), 4.0);
+        check_metric(st, "attribute-concrete-with-format", &info("Terabit"), &info("Kilobyte"), ref_ratio(&info("Terabit"), &info("Kilobyte")), true, &[x], &get("tbit_as_kb_fmt"), false, 4.0);
+        check_metric(st, "attribute-concrete-with-format", &none, &info("Megabyte"), (1, 1), true, &[Observation::Unsigned(n)], &get("size_fmt"), false, 4.0);
         check_metric(st, "attribute-concrete-no-close", &info("Terabit"), &info("Kilobyte"), ref_ratio(&info("Terabit"), &info("Kilobyte")), true, &[x], &get("tbit_as_kb_no_close"), false, 4.0);
         check_metric(st, "attribute-concrete-no-close", &none, &info("Megabyte"), (1, 1), true, &[Observation::Unsigned(n)], &get("size_no_close"), false, 4.0);
     }
